@@ -7,7 +7,7 @@ From Coq Require Import List NArith ZArith Bool Arith Lia.
 From Coq Require Import Init.Byte.
 From FFS Require Import Base.Res Base.Bytes Abi.Spec.
 From FFS Require Import Eip712.Util Eip712.Input Eip712.Numeric Eip712.Coerce Eip712.Model.
-From FFS Require Import Eip712.TotalProofsInput Eip712.TotalProofs Eip712.NumericProofs Eip712.SpellingProofs Eip712.SpellingDocProofs.
+From FFS Require Import Eip712.TotalProofsInput Eip712.TotalProofs Eip712.NumericProofs Eip712.SpellingProofs Eip712.ExactSpellingProofs Eip712.SpellingDocProofs.
 Import ListNotations.
 
 Definition opt_members_rel (ts : typeset) (t : gtype) (o1 o2 : option gmap) : Prop :=
@@ -50,4 +50,17 @@ Example respelled_documents_opt :
 Proof.
   pose proof respelled_documents as [Hd [Hm Hne]]. cbv zeta in *.
   repeat split; try exact I; try assumption. discriminate.
+Qed.
+
+(* the relation also covers the other exact spellings: at a uint256 position the JSON number 1e77 and
+   the 0x-hex string of 10^77 are related, so documents differing this way hash alike *)
+Example respelled_exact_example :
+  respelled [] 1 (bs "uint256") (GNumber (bs "1e77")) (GString (hex_text (10 ^ 77))) /\
+  GNumber (bs "1e77") <> GString (hex_text (10 ^ 77)).
+Proof.
+  split; [|discriminate].
+  apply (respelled_int [] 0 (bs "uint256") (mkEtc EUInt 256 (bs "256")) (10 ^ 77)).
+  - repeat split; vm_compute; reflexivity.
+  - apply sp_exact_num; apply ex_1e77.
+  - constructor.
 Qed.
